@@ -170,10 +170,30 @@ def level_b_drift(rep: Report, wd: str, cases_path: str, tier: str, rng: random.
               f"spec/Modify.tla (information only), e.g. {drift[0]['id']} {drift[0]['op']} {drift[0]['fields']}")
 
 
+MODIFY_MC = {"quick": ("ModifyMC_q.cfg", 1500), "thorough": ("ModifyMC_t.cfg", 7200)}
+
+
+def level_b_model_check(tier: str) -> dict:
+    """U1 for the implementation-shaped model: TLC runs spec/Modify.tla's apply()
+    on every (shape, batch) of the configuration and checks the Level-A clauses
+    on the model's result (spec/ModifyMC.tla; known findings excused by the same
+    signatures as in the trace checks)."""
+    cfg, tmo = MODIFY_MC[tier]
+    res = tlc.model_check("ModifyMC.tla", cfg, timeout=tmo, workers=4)
+    res["config"] = cfg
+    return res
+
+
 def run(prop: str, tier: str, replay: str = None) -> int:
     rep = Report(prop, tier)
     rng = random.Random(core.seed() * 1000003 + hash(prop) % 1000)
     wd = tlc.workdir(prop)
+    mc_future = None
+    pool = None
+    if prop in LEVELB and not replay:
+        from concurrent.futures import ThreadPoolExecutor
+        pool = ThreadPoolExecutor(max_workers=1)
+        mc_future = pool.submit(level_b_model_check, tier)
     try:
         cases = os.path.join(wd, "cases.ndjson")
         if replay:
@@ -218,6 +238,13 @@ def run(prop: str, tier: str, replay: str = None) -> int:
         judge(rep, prop, verdicts, case_by_id)
         if prop in LEVELB and not replay:
             level_b_drift(rep, wd, cases, tier, rng)
+            res = mc_future.result()
+            rep.add_mc("ModifyMC.tla/" + res["config"], res)
+            rep.extra["level_b"]["model_checked"] = {
+                "spec": "spec/ModifyMC.tla", "config": res["config"],
+                "invariants": ["Inv_Completes", "Inv_Bytes", "Inv_Syms", "Inv_Fn", "Inv_NoDeadEdges",
+                               "Inv_PreCfg", "Inv_Cfg"],
+                "distinct_states": res["distinct"], "result": "no invariant violated"}
         rep.rule = ("cases = states of GenG1.tla (shape x batch of non-overlapping requests) "
                     "sampled by seed; non-trivial = non-empty batch with at least one "
                     f"{prop}_* clause in its domain; distinct by (shape, batch, registration order)")
@@ -229,6 +256,8 @@ def run(prop: str, tier: str, replay: str = None) -> int:
         ]
         return rep.finish(write_evidence=not replay)
     finally:
+        if pool is not None:
+            pool.shutdown(wait=True)
         tlc.cleanup(wd)
 
 
